@@ -169,11 +169,21 @@ func genC17(t *rapid.T) *C17Case {
 		if strings.HasPrefix(d.CtlOpt, "ruleRemoveTarget") {
 			// one ctl action per target: several removals on the same rule accumulate
 			d.Targets = genTargets(true)
-			if len(d.Targets) == 2 && rapid.Bool().Draw(t, "samecoll") {
-				// both on the same collection, so that the two removals differ only in their (regex) key
-				d.Targets[1].Var = d.Targets[0].Var
-				if d.Targets[0].Rx && rapid.Bool().Draw(t, "bothrx") {
-					d.Targets[1].Rx, d.Targets[1].Key = true, rapid.SampledFrom([]string{"^a", "b$", "^c", "^x"}).Draw(t, "urx2")
+			if rapid.Bool().Draw(t, "pair") {
+				// two removals on one collection that differ only in their regex key (or: a regex key, then the whole collection)
+				v := rapid.SampledFrom([]string{"ARGS_GET", "ARGS", "ARGS_GET_NAMES"}).Draw(t, "pairvar")
+				rx := []string{"^a", "b$", "^c", "^x", "."}
+				first := Target{Var: v, Neg: true, Rx: true, Key: rapid.SampledFrom(rx).Draw(t, "prx1")}
+				second := Target{Var: v, Neg: true, Rx: true, Key: rapid.SampledFrom(rx).Draw(t, "prx2")}
+				switch rapid.IntRange(0, 3).Draw(t, "pairkind") {
+				case 0:
+					second = Target{Var: v, Neg: true} // whole collection
+				case 1:
+					second = Target{Var: v, Neg: true, Key: rapid.SampledFrom(c17Names).Draw(t, "pkey")}
+				}
+				d.Targets = []Target{first, second}
+				if rapid.Bool().Draw(t, "pairswap") {
+					d.Targets = []Target{second, first}
 				}
 			}
 		}
